@@ -39,8 +39,10 @@ type TxResult struct {
 	Responses []gogoproto.Message
 }
 
-func (r *TxResult) Panicked() bool { return r.Delivered && r.Codespace == "undefined" && r.Code == 111222 }
-func (r *TxResult) OutOfGas() bool  { return r.Delivered && r.Codespace == "sdk" && r.Code == 11 }
+func (r *TxResult) Panicked() bool {
+	return r.Delivered && r.Codespace == "undefined" && r.Code == 111222
+}
+func (r *TxResult) OutOfGas() bool { return r.Delivered && r.Codespace == "sdk" && r.Code == 11 }
 
 // Outcome is a short classification string (statistics only).
 func (r *TxResult) Outcome() string {
@@ -146,7 +148,7 @@ func (BaseChecker) WantRaw() bool                    { return false }
 // RunStats are the measured coverage numbers of one run.
 type RunStats struct {
 	Steps, Blocks, Txs, TxOK, TxFail, TxNotDelivered int
-	SimNanos                                         int64 // simulated time covered
+	SimNanos                                         int64          // simulated time covered
 	MsgOutcomes                                      map[string]int // "<msg type>|ok" / "|fail"
 	Faults                                           map[string]int // fired fault kinds
 	FaultsConfigured                                 map[string]int
@@ -212,6 +214,7 @@ func NewWorld(property string, g *GenesisDoc, opts ChainOpts, ck Checker) (*Worl
 		w.wantRaw = ck.WantRaw()
 	}
 	w.DB = NewSimDB()
+	w.ICA = opts.ICA
 	c, err := NewChain(w.DB, opts)
 	if err != nil {
 		return nil, err
@@ -406,7 +409,13 @@ func (w *World) deliverRaw(ts *TxStep, msgs []sdk.Msg) (bz []byte, res TxResult,
 
 func (w *World) deliverBytes(bz []byte, bf *BankFaultSpec) (res TxResult, fired bool) {
 	w.Chain.FB.Arm(bf)
+	if w.ICA != nil {
+		w.ICA.BeginTx()
+	}
 	r := w.Chain.DeliverTx(bz)
+	if w.ICA != nil {
+		w.ICA.EndTx(r.Code == 0)
+	}
 	fired = w.Chain.FB.Fired
 	w.Chain.FB.Disarm()
 	res = TxResult{Delivered: true, OK: r.Code == 0, Code: r.Code, Codespace: r.Codespace, Log: r.Log,
@@ -830,10 +839,11 @@ func (w *World) Finish() {
 
 // ReplayTrace executes all steps of a trace on a fresh world.
 func ReplayTrace(tr *Trace, ck Checker) (*World, error) {
-	if tr.World == "intertx" {
-		return replayICATrace(tr, ck)
+	opts := ChainOpts{Hasher: tr.Hasher}
+	if tr.ICA != nil {
+		opts.ICA = NewICAWorld(*tr.ICA)
 	}
-	w, err := NewWorld(tr.Property, tr.Genesis, ChainOpts{Hasher: tr.Hasher}, ck)
+	w, err := NewWorld(tr.Property, tr.Genesis, opts, ck)
 	if err != nil {
 		return nil, err
 	}
